@@ -350,8 +350,55 @@ def transform_case(rng, c, cid):
     return d
 
 
+def bridge_family(rng):
+    """Keyhole-bridge configurations: the +x ray from the hole's right-most start vertex S hits a slanted
+    outer edge whose end nearer in y lies LEFT of S.x, with something on the segment from S to that end:
+    (A) a vertex of the same (concave) hole, (B) a second hole further left, or both, several holes
+    staggered in x; mirrored in y; the translation/scale stratum adds offsets and scales."""
+    xb = rng.choice([-0.5, -1.0, -1.5, -2.0, -3.0])
+    top = rng.choice([3.0, 4.0, 6.0])
+    # the slanted edge (xb,-1)->(xr,top) must pass right of S = (0,0) at y = 0
+    xr = math.ceil(xb + (0.75 - xb) * (top + 1)) + rng.choice([0, 1, 4])
+    outer = [(-6.0, -1.0), (xb, -1.0), (float(xr), top), (-6.0, top)]
+    holes = []
+    kind = rng.choice(["A", "A", "B", "B", "AB", "stagger"])
+    if kind in ("A", "AB"):
+        a = rng.choice([0.25, 0.375, 0.5]) * min(1.0, -xb)
+        b = min(0.8, a / -xb + rng.choice([0.125, 0.25, 0.375]))
+        h = [(0.0, 0.0), (-a, -b)]
+        if rng.random() < 0.5:
+            h.append((-1.0 - rng.randrange(0, 3) / 8.0, -0.125))       # concave
+        h.append((-2.0 - rng.randrange(0, 8) / 8.0, 0.5))
+        if rng.random() < 0.5:
+            h.append((-1.0, 0.625))
+        holes.append(h)
+    else:
+        holes.append([(0.0, 0.0), (-0.375, -0.125), (-0.375, 0.1875)])
+    if kind in ("B", "AB", "stagger"):
+        ts = [rng.choice([0.5, 0.625, 0.75])] if kind != "stagger" else [0.4375, 0.6875, 0.875]
+        for t in ts:
+            cx, cy = t * xb, -t
+            if kind == "AB":
+                cx, cy = cx - 0.75, cy - 0.0625       # keep clear of the first hole
+            r = 0.0625
+            holes.append([(cx - r, cy + r), (cx + r, cy), (cx - r, cy - r)])
+    polys = [outer] + holes
+    if rng.random() < 0.5:                           # mirror in y
+        polys = [[(x, -y) for (x, y) in c][::-1] for c in polys]
+    polys = [[(q(x, 1024.0), q(y, 1024.0)) for (x, y) in c] for c in polys]
+    out = []
+    for k, c in enumerate(polys):
+        a2 = area2(c)
+        if a2 == 0:
+            continue
+        if (a2 > 0) != (k == 0):
+            c = c[::-1]
+        out.append(c)
+    return out
+
+
 def gen_case(rng, cid, big):
-    fam = cid % 12 if cid >= 12 else cid
+    fam = cid % 13 if cid >= 13 else cid
     polys, tag = [], ""
     if fam == 0:
         n = rng.choice([3, 4, 5, 8, 13, 30, 64, 120, 400 if big else 200])
@@ -416,6 +463,8 @@ def gen_case(rng, cid, big):
         base = polyomino(rng, 6, 6, 0.8)
         polys = [[(x, y) for (x, y) in c] for c in base] + [[(x + 10.0, y * 0.5) for (x, y) in c] for c in base]
         tag = "copies"
+    elif fam == 12:
+        polys, tag = bridge_family(rng), "bridge"
     else:
         # large scale / tiny scale versions of a star with a hole
         s = rng.choice([2.0 ** -30, 2.0 ** 20, 1.0])
